@@ -214,3 +214,45 @@ func ReadCase(path string) (*Case, error) {
 	}
 	return &c, nil
 }
+
+// Journal records the case a process is about to run, so that the driver can
+// attribute a fatal crash (stack overflow, concurrent map write, race-detector
+// abort) that no recover() can catch. One open file, rewritten in place.
+type Journal struct{ f *os.File }
+
+// OpenJournal opens $VERIF_JOURNAL (nil when unset).
+func OpenJournal() *Journal {
+	p := os.Getenv("VERIF_JOURNAL")
+	if p == "" {
+		return nil
+	}
+	f, err := os.OpenFile(p, os.O_CREATE|os.O_RDWR|os.O_TRUNC, 0o644)
+	if err != nil {
+		return nil
+	}
+	return &Journal{f: f}
+}
+
+// Record overwrites the journal with c.
+func (j *Journal) Record(c *Case) {
+	if j == nil {
+		return
+	}
+	b, err := json.Marshal(c)
+	if err != nil {
+		return
+	}
+	if _, err := j.f.WriteAt(b, 0); err == nil {
+		_ = j.f.Truncate(int64(len(b)))
+	}
+}
+
+// Close removes the journal: the process finished its cases alive.
+func (j *Journal) Close() {
+	if j == nil {
+		return
+	}
+	name := j.f.Name()
+	j.f.Close()
+	os.Remove(name)
+}
